@@ -146,8 +146,59 @@ class C02(Prop):
                          noref_children=True, alphabet=["a", "A", "b", "c", "d", "e"])
         return case_strategy(WEIGHTS, 40 if tier == "quick" else 120, cfg=cfg)
 
+    def fixed_cases(self, tier):
+        from vf import matrix
+        return matrix.shape_cases() + [c for c in matrix.bulk_cases() if c["bulk"][0] in ("ports", "pins")]
+
+    def run_family(self, res, case):
+        """enumerated families (vf/matrix.py): re-pointing between port shapes incl. two-digit widths;
+        bulk port / pin removal on instanced definitions of up to 40 members"""
+        from vf import matrix
+        import spydrnet as sdn
+
+        sdn.namespace_manager.default = "DEFAULT"
+        sc = matrix.build_shape(case["shape"]) if "shape" in case else matrix.build_bulk(case["bulk"])
+        U = ops.Universe()
+        U.absorb(sc["netlist"])
+        for x in sc.get("keep", []):
+            U.absorb(x)
+        U.refresh_outer()
+        pre = check_mirror(U)
+        if pre:
+            raise RuntimeError("family scene inconsistent: %r" % pre[:3])
+        wires_before = None
+        if "shape" in case:
+            I = sc["instance"]
+            wires_before = [[id(I.pins[p].wire) for p in P.pins] for P in sc["old"].ports]
+        try:
+            sc["call"]()
+            outcome = "accepted"
+        except Exception as e:  # noqa
+            outcome = "refused"
+        U.refresh_outer()
+        tag = "shape" if "shape" in case else "bulk-" + sc["kind"]
+        res.label(tag + "-family", tag + "-" + outcome)
+        res.nontrivial = True
+        for code, detail in check_mirror(U):
+            res.violate("C02:%s:after:%s:%s" % (code, tag, outcome), "family %r: %s" % (
+                case.get("shape") or case.get("bulk"), detail))
+            return res
+        if "shape" in case and outcome == "accepted":
+            if not sc["compatible"]:
+                res.violate("C02:incompatible-reference-accepted", "widths %r -> %r" % tuple(case["shape"]))
+                return res
+            I = sc["instance"]
+            now = [[id(I.pins[p].wire) for p in P.pins] for P in sc["new"].ports]
+            if now != wires_before:
+                res.violate("C02:repoint-moved-connections:after:shape", "widths %r" % (case["shape"][0],))
+        if "shape" in case and outcome == "refused" and sc["compatible"]:
+            res.violate("C02:compatible-reference-refused", "widths %r -> %r" % tuple(case["shape"]))
+        return res
+
     def run(self, case):
         res = Result()
+        if "shape" in case or "bulk" in case:
+            return self.run_family(res, case)
         U = build_universe(case)
         mon = MirrorMonitor(res)
         pre = check_mirror(U)
